@@ -508,11 +508,12 @@ SLACK = 1e-6  # ~8 float32 epsilons: the least absolute slack a test on coordina
 
 def r8_side_tolerance(repo: Repo, rep, rule_id="R-C05-8"):
     R = rep.rule(rule_id, "boundary side tests compare computed coordinates with a constant c with an absolute slack of at least 1e-6: isclose needs "
-                 "atol + rtol*|c| >= 1e-6 (the relative part vanishes at c = 0), range tests of barycentric coordinates admit [0 - t, 1 + t]", floor=14,
+                 "atol + rtol*|c| >= 1e-6 (the relative part vanishes at c = 0), range tests of barycentric coordinates admit [0 - t, 1 + t] with t within 100x of that tolerance", floor=18,
                  why="barycentric coordinates of the boundary sampler's own points are computed in float32 (resolution 1.2e-7): with the default "
                      "atol=1e-8 a comparison with 0 rejects them - not contained in their own boundary, no side found, NaN normal")
     bd = repo.cls("problem.domains.domain.BoundaryDomain")
     records = []  # (class name, roles of the function, compared constant, effective tolerance, function, node)
+    ranges = []  # (class name, slack of a unit-range test, function, node)
     for ci in repo.subclasses(bd, strict=True):
         # own methods reachable from _contains / normal
         reach: Dict[str, FuncInfo] = {}
@@ -679,9 +680,104 @@ def r8_side_tolerance(repo: Repo, rep, rule_id="R-C05-8"):
                             label = f"{dump(subj)[:30]} {'>=' if lower else '<='} {v:g}"
                             if lower and abs(v) < 0.5:
                                 rep.check(R, v <= -SLACK, fi.site(n), fi.fq, f"lower end of the unit range widened: bound <= -{SLACK:g}", f"`{dump(n)[:60]}`: bound {v:g}", f"range test {label}")
+                                ranges.append((ci.name, -v, fi, n))
                             elif not lower and abs(v - 1) < 0.5:
                                 rep.check(R, v >= 1 + SLACK, fi.site(n), fi.fq, f"upper end of the unit range widened: bound >= 1 + {SLACK:g}", f"`{dump(n)[:60]}`: bound {v:g}", f"range test {label}")
+                                ranges.append((ci.name, v - 1, fi, n))
+    # one predicate, one order of magnitude: the slack along a side may not exceed 100x the tolerance across it
+    for cname, slack, fi, n in ranges:
+        effs = [r[3] for r in records if r[0] == cname and "_contains" in r[1]]
+        if effs and slack > 0:
+            rep.check(R, slack <= 100 * max(effs), fi.site(n), fi.fq, f"slack along the side <= 100 x the closeness tolerance of the same membership test ({max(effs):g})",
+                      f"slack {slack:g}", f"range slack {slack:g} vs tolerance {max(effs):g}")
     return records
+
+
+SHAPE_ONLY = ("reshape", "view", "unsqueeze", "squeeze", "flatten", "contiguous", "clone")
+
+
+def _strip_shape(e: ast.AST) -> ast.AST:
+    while True:
+        if isinstance(e, ast.Call) and isinstance(e.func, ast.Attribute) and e.func.attr in SHAPE_ONLY:
+            e = e.func.value
+        elif isinstance(e, ast.Subscript) and not getattr(e, "_tuple_elt", False) and all(
+                (isinstance(x, ast.Slice) and x.lower is None and x.upper is None) or (isinstance(x, ast.Constant) and x.value in (None, Ellipsis))
+                for x in (e.slice.elts if isinstance(e.slice, ast.Tuple) else [e.slice])):
+            e = e.value
+        else:
+            return e
+
+
+def radial_membership(repo: Repo):
+    """for the ball-shaped primitives: (class, function, return node, kind of the distance ('norm' | 'square' | None), bound as a rational function of r | None, text)"""
+    from ..absdom.poly import RF, NotPoly, to_rf
+    for spec in ("problem.domains.domain2D.circle.Circle", "problem.domains.domain3D.sphere.Sphere"):
+        ci = repo.cls(spec)
+        fi = ci.methods.get("_contains")
+        if fi is None:
+            raise AnalysisError(f"{spec}._contains vanished")
+        for p in paths(fi.node):
+            if p.ret is RAISE or p.ret is None:
+                continue
+            r = _strip_shape(p.ret)
+            if not (isinstance(r, ast.Compare) and len(r.ops) == 1 and isinstance(r.ops[0], (ast.LtE, ast.Lt, ast.GtE, ast.Gt))):
+                yield ci, fi, p.ret_node, None, None, dump(p.ret)[:100]
+                continue
+            small, big = (r.left, r.comparators[0]) if isinstance(r.ops[0], (ast.LtE, ast.Lt)) else (r.comparators[0], r.left)
+            small = _strip_shape(small)
+            kind = None
+            if isinstance(small, ast.Call) and (attr_chain(small.func) or "") in ("torch.linalg.norm", "torch.norm", "torch.linalg.vector_norm"):
+                kind = "norm"
+            elif isinstance(small, ast.Call) and attr_chain(small.func) == "torch.sqrt":
+                kind = "norm"
+            elif isinstance(small, ast.BinOp) and isinstance(small.op, ast.Pow) and dump(small.right) == "0.5":
+                kind = "norm"
+            elif isinstance(small, ast.Call) and attr_chain(small.func) == "torch.sum" and small.args and any(
+                    (isinstance(x, ast.BinOp) and isinstance(x.op, ast.Pow) and dump(x.right) == "2") or (isinstance(x, ast.BinOp) and isinstance(x.op, ast.Mult) and dump(x.left) == dump(x.right))
+                    for x in ast.walk(small.args[0])):
+                kind = "square"
+
+            def atom(n):
+                m = _strip_shape(n)
+                if isinstance(m, ast.Subscript) and getattr(m, "_tuple_elt", False) and isinstance(m.value, ast.Call) and (attr_chain(m.value.func) or "").endswith("_compute_center_and_radius") \
+                        and isinstance(m.slice, ast.Constant) and m.slice.value == 1:
+                    return RF.atom("r")
+                if m is not n:
+                    try:
+                        return to_rf(m, atom)
+                    except NotPoly:
+                        return None
+                return None
+            try:
+                bound = to_rf(big, atom)
+            except NotPoly:
+                bound = None
+            yield ci, fi, p.ret_node, kind, bound, dump(r)[:120]
+
+
+def r9_radial_sign(repo: Repo, rep, rule_id="R-C05-9"):
+    from ..absdom.poly import RF
+    R = rep.rule(rule_id, "ball-shaped primitives compare the distance itself with a bound that grows linearly with the radius: a non-positive radius denotes the empty set", floor=2,
+                 why="comparing squares forgets the sign of a parameter-dependent radius: r(t) < 0 would denote the ball of radius |r|")
+    r = RF.atom("r")
+    for ci, fi, node, kind, bound, text in radial_membership(repo):
+        rep.saw(fi)
+        if kind is None or bound is None:
+            rep.undecided(R, fi.site(node), fi.fq, "distance <= bound(radius) recognisable", text)
+            continue
+        from ..absdom.poly import NotPoly
+        try:
+            lin = bound.coeff_of("r")
+            rest = bound - lin * r
+            is_linear = lin.is_const() and rest.is_const()
+        except NotPoly:
+            is_linear = False
+        if kind == "square":
+            rep.violation(R, fi.site(node), fi.fq, "the distance (not its square) is compared", f"squared distance compared with {bound!r}", "squared comparison")
+        elif is_linear:
+            rep.check(R, lin.const_value() > 0, fi.site(node), fi.fq, "bound = c * radius + b with c > 0", f"bound {bound!r}", f"bound {bound!r}")
+        else:
+            rep.violation(R, fi.site(node), fi.fq, "bound = c * radius + b with c > 0", f"bound {bound!r} is not linear in the radius", f"bound {bound!r}")
 
 
 def _roles_of(expr: ast.AST, roles: Dict[str, Set[str]]) -> Set[str]:
@@ -881,12 +977,16 @@ def run(repo: Repo, rep):
     r6_answer_shape(repo, rep)
     r7_own_columns(repo, rep)
     r8_side_tolerance(repo, rep)
+    r9_radial_sign(repo, rep)
     from .c12 import r3_selection  # the name-based selection this property's idioms rely on
     r3_selection(repo, rep)
     from .c13 import r2_r3_mapping  # shape functions are evaluated with each row's own values: given names win over stored defaults
     r2_r3_mapping(repo, rep)
-    from .c17 import r1_roundtrip  # a partially evaluated expression denotes the same set: every constructor argument (pivot, flags, sub-domains) must be carried over
+    from .c13 import r5_copy_on_partial  # shape functions fixed by a partial evaluation live in a deep copy: the original and earlier evaluations keep their own values
+    r5_copy_on_partial(repo, rep)
+    from .c17 import r1_roundtrip, r5_point_data  # a partially evaluated expression denotes the same set: every constructor argument (pivot, flags, sub-domains) must be carried over; a fixed factor becomes the Point with its coordinates in space order
     r1_roundtrip(repo, rep)
+    r5_point_data(repo, rep)
 
 
 _U = "src/torchphysics/problem/domains/domainoperations/union.py"
